@@ -32,7 +32,10 @@ def _world(r):
     for nm in r.sample(['a', 'b', 'c', 'x', 'y', 'z', '%my var%', 'цена'], r.randint(0, 5)):
         names[nm] = gen.host_value_spec(r, 2, floats=r.random() < 0.15)
     fns = ['t', 'call', 'attempt'] if r.random() < 0.4 else []
-    return {'names': names, 'host_fns': fns}
+    w = {'names': names, 'host_fns': fns}
+    if r.random() < 0.3:
+        w['cache'] = r.choice([{'kind': 'dict'}, {'kind': 'lru', 'bound': 2}])
+    return w
 
 
 def generate(seed, tier):
@@ -47,8 +50,13 @@ def generate(seed, tier):
         arity = {k: len(v.params) for k, v in model.host.items() if getattr(v, '_sim_kind', '') == 'lambda'}
         g = ProgGen(ro, env, max_depth=ro.choice([2, 3, 3, 4]), allow_host=world['host_fns'], fn_arity=arity,
                     probes=bool(world['host_fns']) and ro.random() < 0.3)
-        prog = g.program()
-        ops.append({'op': 'eval', 'prog': prog, 'style': gen.style(S['render']), 'kinds': sorted(g.kinds)})
+        if ops and ro.random() < 0.15:
+            prev = ro.choice(ops)       # the same source text again, in a possibly different names state
+            ops.append(dict(prev))
+            prog = prev['prog']
+        else:
+            prog = g.program()
+            ops.append({'op': 'eval', 'prog': prog, 'style': gen.style(S['render']), 'kinds': sorted(g.kinds)})
         out = model.run(prog)
         if out[0] == 'unspec':
             break
